@@ -60,7 +60,8 @@ def expectation(prog, env):
         return ("unroutable",)
     except MissingField as e:
         return ("skip", "missing field " + str(e))
-    except TypeError as e:
+    except (TypeError, ArithmeticError, ValueError) as e:
+        # e.g. Decimal against a NaN float signals InvalidOperation: Python itself cannot compare the two
         return ("skip", "not type-compatible: " + str(e)[:80])
     weights = [g.weight for g in ret.groups]
     if not prog.splitters:
@@ -117,7 +118,7 @@ def selection(prog, env):
         return route(prog.cond, env).ordinal
     except Unroutable:
         return "UNROUTABLE"
-    except (MissingField, TypeError):
+    except (MissingField, TypeError, ArithmeticError, ValueError):
         return None
 
 
